@@ -16,10 +16,32 @@ def repo_root():
     return os.environ.get("VERIF_REPO", "/repo")
 
 
+_LINES = {}
+
+
+def _segment(src, node):
+    """ast.get_source_segment without re-splitting the file for every function (it is quadratic in file size)"""
+    key = id(src)
+    ent = _LINES.get(key)
+    if ent is None or ent[0] is not src:
+        ent = (src, src.splitlines(keepends=True))
+        _LINES[key] = ent
+    lines = ent[1]
+    try:
+        l0, l1, c0, c1 = node.lineno - 1, node.end_lineno - 1, node.col_offset, node.end_col_offset
+        if l0 == l1:
+            return lines[l0].encode()[c0:c1].decode()
+        first = lines[l0].encode()[c0:].decode()
+        last = lines[l1].encode()[:c1].decode()
+        return "".join([first] + lines[l0 + 1:l1] + [last])
+    except Exception:
+        return ast.get_source_segment(src, node) or ""
+
+
 class FuncInfo:
     def __init__(self, qualname, module, cls, node, src, path):
         self.qualname, self.module, self.cls, self.node, self.path = qualname, module, cls, node, path
-        seg = ast.get_source_segment(src, node) or ""
+        seg = _segment(src, node)
         self.sha = hashlib.sha256(seg.encode()).hexdigest()
         self.nlines = (node.end_lineno or node.lineno) - node.lineno + 1
         self.decorators = [ast.unparse(d) for d in node.decorator_list]
